@@ -11,9 +11,14 @@ C14_FIELDS = {"at", "atmax", "huge", "hat", "iter", "riter", "post", "rpost"}   
 C15_FIELDS = {"size", "empty", "steps", "hsize", "hat", "iter", "riter", "post", "rpost", "eqd", "eqo", "bend"}
 
 
-def mine(pid, field):
+C09_FIELDS = {"size", "at", "hat", "hsize", "iter", "riter", "post", "rpost"}   # the product type lists its members' types in order
+
+
+def mine(pid, field, kind=""):
     if pid == "C14":
         return field in C14_FIELDS
+    if pid == "C09":
+        return kind.startswith("typed_sequence") and field in C09_FIELDS
     return field in C15_FIELDS or field == "at"
 
 
@@ -51,7 +56,7 @@ def run(pid, tier, seed):
     seen = set()
     for f in r["fails"]:
         fld = f["key"].split(":")[-1]
-        if not mine(pid, fld):
+        if not mine(pid, fld, f.get("kind", "")):
             foreign += 1
             continue
         if f["key"] in seen:
@@ -76,7 +81,10 @@ def run(pid, tier, seed):
             except ValueError:
                 ev = {}
             kind = ev.get("e")
-            if kind in ("derived", "equality"):
+            if pid == "C09" and kind in ("derived", "equality", "optional", "Crash", "Sanitizer"):
+                ok = False
+                key = ""
+            elif kind in ("derived", "equality"):
                 ok = pid == "C15"
                 key = "trace:%s:%s" % (kind, ev.get("name", ev.get("sort")))
             elif kind == "optional":
@@ -86,8 +94,8 @@ def run(pid, tier, seed):
                 ok = pid == "C14"
                 key = "trace:%s" % kind
             else:
-                ok = True
                 first = json.loads(prefix[0]) if prefix else {}
+                ok = pid != "C09" or str(first.get("kind", "")).startswith("typed_sequence")
                 key = "trace:%s:%s" % (kind, first.get("kind"))
             if not ok:
                 foreign += 1
